@@ -255,6 +255,18 @@ def run_case(case, ctx):
                 except Exception:
                     pass
                 del rec.calls[:]
+            elif (case['seed'] // 6) % 3 == 1:
+                # ... or a call that failed: too many positional parameters for f (a TypeError from f's own signature), or a point
+                # of the wrong type.  The object is then used correctly: same configuration, same result
+                ctx.count('object_called_before_with_a_call_that_raised')
+                try:
+                    if case['seed'] % 2:
+                        obj(np.array(x, copy=True), 3.0, 4.0, 5.0)
+                    else:
+                        obj(None)
+                except Exception:
+                    pass
+                del rec.calls[:]
             x_then = np.array(xin, copy=True) if isinstance(xin, np.ndarray) else None
             J = obj(xin, *args, **kwds)
             if x_then is not None:
